@@ -338,12 +338,12 @@ def c07_scenarios(ctx):
         s = dict(base, id=len(scns) + 1, name="spoolroll-k%d-a%d-s%d" % (k, align, se), steps=steps, spool_recs=k, spool_align=align,
                  spool_syncevery=se, spoolbuf=rng.choice([0, 10, 10000]), unspool_us=rng.choice([1, 50]))
         scns.append(s)
-    # high volume inside one keep period: 150 000 lines are written to a connection whose io buffer holds them all (no
+    # high volume inside one keep period: 260 000 lines are written to a connection whose io buffer holds them all (no
     # periodic flush), so none has reached the endpoint when it goes away: every one of them is in flight, keepSafe is
     # the only place that still has them, and all must come back through redo ("at least the last keep period" has no
     # bound on the number of lines)
     s = dict(base, id=len(scns) + 1, name="keepsafe-high-volume", iobuf=64_000_000, flush_ms=3_600_000, pause_us=0, burst=0,
-             spoolbuf=10000, steps=["up", S(150000), "down", "up", S(20)])
+             spoolbuf=10000, steps=["up", S(260000), "down", "up", S(20)])
     scns.append(s)
     # seeded random schedules; small buffers included
     nrand = 3 if q else 24
